@@ -191,6 +191,48 @@ def templates():
               ("set", "m", ("mod", [("set", "a", I(1)), ("set", "a", ("bin", "add", V("outer"), I(1))), ("block", [("set", "hidden", I(3))]),
                                     ("fndecl", "f", [], INT, [("return", V("a"))])])),
               ("tuple", [V("m"), ("call", ("facc", V("m"), "f"), [])])])
+    # a declared function knows its own name wherever it is called from: directly, through a parameter, and by every
+    # operator that calls functions (`@`, `?`, `\\`, `$`), with the recursive call actually reached
+    FACT = ("fndecl", "fact", [("n", INT)], INT, [("if", ("bin", "le", V("n"), I(1)), ("block", [("return", I(1))]), None),
+                                                   ("return", ("bin", "mul", V("n"), ("call", V("fact"), [("bin", "sub", V("n"), I(1))])))])
+    BIG = ("fndecl", "big", [("n", INT)], BOOL, [("if", ("bin", "gt", V("n"), I(3)), ("block", [("return", ("call", V("big"), [("bin", "sub", V("n"), I(3))]))]), None),
+                                                  ("return", ("bin", "eq", V("n"), I(3)))])
+    ACC = ("fndecl", "acc", [("a", INT), ("b", INT)], INT, [("if", ("bin", "gt", V("b"), I(0)), ("block", [("return", ("call", V("acc"), [("bin", "add", V("a"), I(1)), ("bin", "sub", V("b"), I(1))]))]), None),
+                                                             ("return", V("a"))])
+    src5 = ("post", "iter", ("array", [I(1), I(3), I(4), I(6)]))
+    uses = {
+        "call": ("call", V("fact"), [I(5)]),
+        "map": ("post", "collect", ("bin", "map", src5, V("fact"))),
+        "filter": ("post", "collect", ("bin", "filter", src5, V("big"))),
+        "partition": ("bin", "partition", src5, V("big")),
+        "reduce": ("reduce", src5, I(0), V("acc")),
+        "param": ("call", ("fn", [("k", fn((INT,), INT))], INT, [("return", ("call", V("k"), [I(4)]))]), [V("fact")]),
+        "alias": ("call", V("g2"), [I(4)]),
+        "sum-of-map": ("post", "sum", ("bin", "map", src5, V("fact"))),
+        "all-of-map": ("post", "all", ("bin", "map", src5, V("big"))),
+    }
+    for nm, e in uses.items():
+        T.append([FACT, BIG, ACC, ("set", "g2", V("fact")), e])
+        # ... also when the use sits inside another function and the declared name was shadowed meanwhile at the use site
+        T.append([FACT, BIG, ACC, ("set", "g2", V("fact")),
+                  ("fndecl", "run", [], ("any",), [("return", e)]), ("call", V("run"), [])])
+    # every way a module's top level can declare a name: `:=`, destructuring, function declaration, re-declaration -
+    # each is a field of the module (value AND static type: the field is read afterwards), names of inner scopes are not
+    decls = {
+        "set": ([("set", "q", ("call", V("idf"), [I(3)]))], ["q"]),
+        "destruct": ([("destruct", ["q", "r"], ("tuple", [("call", V("idf"), [I(3)]), ("s", "two")]))], ["q", "r"]),
+        "destruct-then-set": ([("destruct", ["q", "r"], ("tuple", [I(1), I(2)])), ("set", "n", ("bin", "add", V("q"), V("r")))], ["q", "r", "n"]),
+        "set-then-destruct": ([("set", "q", ("s", "old")), ("destruct", ["q", "r"], ("tuple", [I(1), I(2)]))], ["q", "r"]),
+        "fndecl": ([("fndecl", "q", [], INT, [("return", I(4))])], ["q"]),
+        "fndecl-uses-destructured": ([("destruct", ["a", "b"], ("tuple", [I(5), I(6)])), ("fndecl", "q", [], INT, [("return", ("bin", "add", V("a"), V("b")))])], ["a", "b", "q"]),
+        "destruct-in-block": ([("set", "q", I(1)), ("block", [("destruct", ["hid", "den"], ("tuple", [I(1), I(2)]))])], ["q"]),
+    }
+    for nm, (body, names) in decls.items():
+        reads = [("facc", V("m"), x) if not (nm.startswith("fndecl") and x == "q") else ("call", ("facc", V("m"), x), []) for x in names]
+        T.append([IDF, ("set", "outer", ("call", V("idf"), [I(9)])), ("set", "m", ("mod", body)), ("tuple", [V("m")] + reads)])
+        # the module as a function result (nothing folds), read through a parameter of struct type `any`
+        T.append([IDF, ("fndecl", "mk", [("seed", INT)], ("any",), [("return", ("mod", [("set", "s0", V("seed"))] + body))]),
+                  ("call", V("mk"), [I(1)])])
     return T
 
 
